@@ -377,6 +377,19 @@ impl Router {
                 .insert(connection_id);
         }
 
+        // a resumed session is a member of the groups of its shared subscriptions again
+        for request in tracker.data_requests.iter() {
+            if let Some(group_name) = &request.group {
+                self.shared_subscriptions
+                    .entry(group_name.clone())
+                    .or_insert(SharedGroup::new(
+                        request.cursor,
+                        self.config.shared_subscriptions_strategy.clone(),
+                    ))
+                    .add_client(client_id.clone());
+            }
+        }
+
         assert_eq!(self.ackslog.insert(ackslog), connection_id);
         assert_eq!(self.scheduler.add(tracker), connection_id);
 
